@@ -39,7 +39,7 @@ def simple_source(doc, kind):
     raise ValueError(kind)
 
 
-def call(thunk, faults=None, norm=None):
+def call(thunk, faults=None, norm=None, retain=None):
     """Run thunk() inside a fresh OpContext; returns (outcome dict, ctx).
 
     outcome: {'status': 'ok', 'value': canon} | {'status': 'exc', 'exc': qualname,
@@ -60,7 +60,12 @@ def call(thunk, faults=None, norm=None):
                    'from_callback': callback_frames(e.__traceback__),
                    'contained': classify_exc(e),
                    'text': (norm(str(e)) if norm else str(e))[:300]}
-            e.__traceback__ = None
+            if retain is not None:
+                # the caller keeps the exception (a Future, a log record, pytest's
+                # excinfo do): its traceback keeps the frames of the failed call alive
+                retain.append(e)
+            else:
+                e.__traceback__ = None
             del e
     finally:
         seam.install(prev)
